@@ -20,3 +20,183 @@ impl DM {
                 forall|r: int, c: int| #![trigger final(self).at(r, c)] final(self).at(r, c) == if r == idx.0 && c == idx.1 { v@ } else { old(self).at(r, c) }
     { unimplemented!() }
 }
+
+// ---- statically sized vectors / matrices (SVector<N, S>, SMatrix<N, S, S>) -------------------------------------
+// A vector is a sequence of S reals.  A matrix is an abstract linear map (identified by `id`); the only facts
+// assumed about it are the linear-algebra axioms below (assumed contracts on nalgebra's LU solve / inverse).
+pub struct SV<const S: usize> { pub v: Ghost<Seq<real>> }
+impl<const S: usize> View for SV<S> { type V = Seq<real>; open spec fn view(&self) -> Seq<real> { self.v@ } }
+impl<const S: usize> Clone for SV<S> { #[verifier::external_body] fn clone(&self) -> (r: Self) ensures r == *self { unimplemented!() } }
+impl<const S: usize> Copy for SV<S> {}
+pub struct SM<const S: usize> { pub id: Ghost<int> }
+impl<const S: usize> Clone for SM<S> { #[verifier::external_body] fn clone(&self) -> (r: Self) ensures r == *self { unimplemented!() } }
+impl<const S: usize> Copy for SM<S> {}
+pub struct SLu<const S: usize> { pub id: Ghost<int> }
+
+pub open spec fn sl(s: &[R]) -> Seq<real> { Seq::new(s@.len(), |i: int| s@[i]@) }
+pub open spec fn wadd(a: Seq<real>, b: Seq<real>) -> Seq<real> { Seq::new(a.len(), |i: int| a[i] + b[i]) }
+pub open spec fn wsub(a: Seq<real>, b: Seq<real>) -> Seq<real> { Seq::new(a.len(), |i: int| a[i] - b[i]) }
+pub open spec fn wneg(a: Seq<real>) -> Seq<real> { Seq::new(a.len(), |i: int| -a[i]) }
+pub open spec fn wscale(a: Seq<real>, s: real) -> Seq<real> { Seq::new(a.len(), |i: int| a[i] * s) }
+pub open spec fn wzero(n: nat) -> Seq<real> { Seq::new(n, |i: int| 0real) }
+pub uninterp spec fn wnorm(a: Seq<real>) -> real;
+pub uninterp spec fn mv(m: int, v: Seq<real>) -> Seq<real>;          // matrix (id m) times vector
+pub uninterp spec fn nonsingular(m: int) -> bool;
+pub uninterp spec fn entry(m: int, r: int, c: int) -> real;
+
+// linear-algebra axioms (trusted)
+#[verifier::external_body]
+pub proof fn axiom_mv(m: int, u: Seq<real>, v: Seq<real>)
+    ensures mv(m, u).len() == u.len(), mv(m, wneg(u)) == wneg(mv(m, u)), mv(m, wzero(u.len())) == wzero(u.len()),
+            nonsingular(m) && u.len() == v.len() && mv(m, u) == mv(m, v) ==> u == v
+{ }
+#[verifier::external_body]
+pub proof fn axiom_wnorm(v: Seq<real>)
+    ensures wnorm(v) >= 0real, wnorm(v) == 0real <==> (forall|i: int| 0 <= i < v.len() ==> v[i] == 0real)
+{ }
+
+impl<const S: usize> SV<S> {
+    #[verifier::external_body]
+    pub fn from_column_slice(s: &[R]) -> (r: Self) requires s@.len() == S ensures r@ == sl(s) { unimplemented!() }
+    #[verifier::external_body]
+    pub fn as_slice(&self) -> (r: &[R]) ensures sl(r) == self@, r@.len() == self@.len() { unimplemented!() }
+    #[verifier::external_body]
+    pub fn norm(&self) -> (r: R) ensures r@ == wnorm(self@) { unimplemented!() }
+    #[verifier::external_body]
+    pub fn len(&self) -> (r: usize) ensures r == S { unimplemented!() }
+    // `v[i]`, `v[i] += h`, `v[i] -= h` on a vector (Index / IndexMut of nalgebra, rule R22)
+    #[verifier::external_body]
+    pub fn vx_at(&self, i: usize) -> (r: R) requires i < self@.len() ensures r@ == self@[i as int] { unimplemented!() }
+    #[verifier::external_body]
+    pub fn vx_add_at(&mut self, i: usize, h: R) requires i < old(self)@.len() ensures final(self)@ == old(self)@.update(i as int, old(self)@[i as int] + h@) { unimplemented!() }
+    #[verifier::external_body]
+    pub fn vx_sub_at(&mut self, i: usize, h: R) requires i < old(self)@.len() ensures final(self)@ == old(self)@.update(i as int, old(self)@[i as int] - h@) { unimplemented!() }
+}
+impl<const S: usize> NegSpecImpl for SV<S> {
+    open spec fn obeys_neg_spec() -> bool { false }
+    open spec fn neg_req(self) -> bool { true }
+    open spec fn neg_spec(self) -> SV<S> { arbitrary() }
+}
+impl<const S: usize> core::ops::Neg for SV<S> { type Output = SV<S>; #[verifier::external_body] fn neg(self) -> (r: SV<S>) ensures r@ == wneg(self@) { unimplemented!() } }
+impl<const S: usize> AddSpecImpl<SV<S>> for SV<S> {
+    open spec fn obeys_add_spec() -> bool { false }
+    open spec fn add_req(self, rhs: SV<S>) -> bool { self@.len() == rhs@.len() }
+    open spec fn add_spec(self, rhs: SV<S>) -> SV<S> { arbitrary() }
+}
+impl<const S: usize> core::ops::Add<SV<S>> for SV<S> { type Output = SV<S>; #[verifier::external_body] fn add(self, rhs: SV<S>) -> (r: SV<S>) ensures r@ == wadd(self@, rhs@) { unimplemented!() } }
+impl<const S: usize> SubSpecImpl<SV<S>> for SV<S> {
+    open spec fn obeys_sub_spec() -> bool { false }
+    open spec fn sub_req(self, rhs: SV<S>) -> bool { self@.len() == rhs@.len() }
+    open spec fn sub_spec(self, rhs: SV<S>) -> SV<S> { arbitrary() }
+}
+impl<const S: usize> core::ops::Sub<SV<S>> for SV<S> { type Output = SV<S>; #[verifier::external_body] fn sub(self, rhs: SV<S>) -> (r: SV<S>) ensures r@ == wsub(self@, rhs@) { unimplemented!() } }
+impl<const S: usize> MulSpecImpl<R> for SV<S> {
+    open spec fn obeys_mul_spec() -> bool { false }
+    open spec fn mul_req(self, rhs: R) -> bool { true }
+    open spec fn mul_spec(self, rhs: R) -> SV<S> { arbitrary() }
+}
+impl<const S: usize> core::ops::Mul<R> for SV<S> { type Output = SV<S>; #[verifier::external_body] fn mul(self, rhs: R) -> (r: SV<S>) ensures r@ == wscale(self@, rhs@) { unimplemented!() } }
+impl<const S: usize> SM<S> {
+    #[verifier::external_body]
+    pub fn lu(self) -> (r: SLu<S>) ensures r.id@ == self.id@ { unimplemented!() }
+    #[verifier::external_body]
+    pub fn zero() -> (r: Self) { unimplemented!() }
+    #[verifier::external_body]
+    pub fn row(&self, i: usize) -> (r: DMLine) ensures r.n == S { unimplemented!() }
+    #[verifier::external_body]
+    pub fn column(&self, i: usize) -> (r: DMLine) ensures r.n == S { unimplemented!() }
+    // `m[(r, c)] = v` (rule R22): the result is a (new) matrix that has v at (r, c) and the old entries elsewhere
+    #[verifier::external_body]
+    pub fn vx_set(&mut self, idx: (usize, usize), v: R)
+        requires idx.0 < S, idx.1 < S
+        ensures forall|r: int, c: int| #![trigger entry(final(self).id@, r, c)] entry(final(self).id@, r, c) == if r == idx.0 && c == idx.1 { v@ } else { entry(old(self).id@, r, c) }
+    { unimplemented!() }
+}
+impl<const S: usize> SLu<S> {
+    // nalgebra LU::solve: Some(x) with A x = b; a non-singular matrix is always solved
+    #[verifier::external_body]
+    pub fn solve(&self, b: &SV<S>) -> (r: Option<SV<S>>)
+        ensures r is Some ==> r->Some_0@.len() == b@.len() && mv(self.id@, r->Some_0@) == b@, nonsingular(self.id@) <==> r is Some
+    { unimplemented!() }
+}
+
+// ---- operations used only by the Broyden update of `secant`: typed, but with NO contract (nothing about their
+// values is assumed, so nothing about the in-loop algebra of secant is decided) -- except where stated.
+pub struct SRow<const S: usize> { pub id: Ghost<int> }
+impl<const S: usize> Clone for SRow<S> { #[verifier::external_body] fn clone(&self) -> (r: Self) ensures r == *self { unimplemented!() } }
+impl<const S: usize> Copy for SRow<S> {}
+pub struct S11 { pub id: Ghost<int> }
+impl S11 { #[verifier::external_body] pub fn vx_at(&self, idx: (usize, usize)) -> (r: R) { unimplemented!() } }
+pub uninterp spec fn minv(m: int) -> int;        // inverse
+pub uninterp spec fn mneg(m: int) -> int;        // negation
+// (-M) 0 = 0 and M 0 = 0 (linearity of the matrix-vector product at the zero vector)
+#[verifier::external_body]
+pub proof fn axiom_mv_zero(m: int, n: nat) ensures mv(m, wzero(n)) == wzero(n), mv(mneg(m), wzero(n)) == wzero(n) {}
+impl<const S: usize> SLu<S> {
+    // nalgebra LU::try_inverse: Some(inverse) exactly for a non-singular matrix
+    #[verifier::external_body]
+    pub fn try_inverse(&self) -> (r: Option<SM<S>>)
+        ensures nonsingular(self.id@) <==> r is Some, r is Some ==> r->Some_0.id@ == minv(self.id@)
+    { unimplemented!() }
+}
+impl<const S: usize> SV<S> {
+    #[verifier::external_body]
+    pub fn transpose(&self) -> (r: SRow<S>) { unimplemented!() }
+    // `guess += &shift`
+    #[verifier::external_body]
+    pub fn vx_add_assign(&mut self, rhs: &SV<S>) requires old(self)@.len() == rhs@.len() ensures final(self)@ == wadd(old(self)@, rhs@) { unimplemented!() }
+}
+impl<const S: usize> NegSpecImpl for SM<S> {
+    open spec fn obeys_neg_spec() -> bool { false }
+    open spec fn neg_req(self) -> bool { true }
+    open spec fn neg_spec(self) -> SM<S> { arbitrary() }
+}
+impl<const S: usize> core::ops::Neg for SM<S> { type Output = SM<S>; #[verifier::external_body] fn neg(self) -> (r: SM<S>) ensures r.id@ == mneg(self.id@) { unimplemented!() } }
+impl<const S: usize> NegSpecImpl for &SM<S> {
+    open spec fn obeys_neg_spec() -> bool { false }
+    open spec fn neg_req(self) -> bool { true }
+    open spec fn neg_spec(self) -> SM<S> { arbitrary() }
+}
+impl<const S: usize> core::ops::Neg for &SM<S> { type Output = SM<S>; #[verifier::external_body] fn neg(self) -> (r: SM<S>) ensures r.id@ == mneg(self.id@) { unimplemented!() } }
+impl<const S: usize> MulSpecImpl<SV<S>> for SM<S> {
+    open spec fn obeys_mul_spec() -> bool { false }
+    open spec fn mul_req(self, rhs: SV<S>) -> bool { true }
+    open spec fn mul_spec(self, rhs: SV<S>) -> SV<S> { arbitrary() }
+}
+impl<const S: usize> core::ops::Mul<SV<S>> for SM<S> { type Output = SV<S>; #[verifier::external_body] fn mul(self, rhs: SV<S>) -> (r: SV<S>) ensures r@ == mv(self.id@, rhs@), r@.len() == rhs@.len() { unimplemented!() } }
+impl<const S: usize> NegSpecImpl for SRow<S> {
+    open spec fn obeys_neg_spec() -> bool { false }
+    open spec fn neg_req(self) -> bool { true }
+    open spec fn neg_spec(self) -> SRow<S> { arbitrary() }
+}
+impl<const S: usize> core::ops::Neg for SRow<S> { type Output = SRow<S>; #[verifier::external_body] fn neg(self) -> (r: SRow<S>) { unimplemented!() } }
+impl<const S: usize> MulSpecImpl<SV<S>> for SRow<S> {
+    open spec fn obeys_mul_spec() -> bool { false }
+    open spec fn mul_req(self, rhs: SV<S>) -> bool { true }
+    open spec fn mul_spec(self, rhs: SV<S>) -> S11 { arbitrary() }
+}
+impl<const S: usize> core::ops::Mul<SV<S>> for SRow<S> { type Output = S11; #[verifier::external_body] fn mul(self, rhs: SV<S>) -> (r: S11) { unimplemented!() } }
+impl<const S: usize> MulSpecImpl<SM<S>> for SRow<S> {
+    open spec fn obeys_mul_spec() -> bool { false }
+    open spec fn mul_req(self, rhs: SM<S>) -> bool { true }
+    open spec fn mul_spec(self, rhs: SM<S>) -> SRow<S> { arbitrary() }
+}
+impl<const S: usize> core::ops::Mul<SM<S>> for SRow<S> { type Output = SRow<S>; #[verifier::external_body] fn mul(self, rhs: SM<S>) -> (r: SRow<S>) { unimplemented!() } }
+impl<const S: usize> MulSpecImpl<SRow<S>> for SV<S> {
+    open spec fn obeys_mul_spec() -> bool { false }
+    open spec fn mul_req(self, rhs: SRow<S>) -> bool { true }
+    open spec fn mul_spec(self, rhs: SRow<S>) -> SM<S> { arbitrary() }
+}
+impl<const S: usize> core::ops::Mul<SRow<S>> for SV<S> { type Output = SM<S>; #[verifier::external_body] fn mul(self, rhs: SRow<S>) -> (r: SM<S>) { unimplemented!() } }
+impl<const S: usize> DivSpecImpl<R> for SM<S> {
+    open spec fn obeys_div_spec() -> bool { false }
+    open spec fn div_req(self, rhs: R) -> bool { true }
+    open spec fn div_spec(self, rhs: R) -> SM<S> { arbitrary() }
+}
+impl<const S: usize> core::ops::Div<R> for SM<S> { type Output = SM<S>; #[verifier::external_body] fn div(self, rhs: R) -> (r: SM<S>) { unimplemented!() } }
+impl<const S: usize> SM<S> {
+    // `jac_inv += M`
+    #[verifier::external_body]
+    pub fn vx_add_assign(&mut self, rhs: SM<S>) { unimplemented!() }
+}
+
